@@ -82,6 +82,7 @@ type genRes struct {
 	ok  bool
 	id  string
 	err string
+	own string // allocator only: GetNodeID() after a failed allocation
 }
 
 func errClass(err error) string {
@@ -117,11 +118,45 @@ func safeRel(in genInst, id string) (res genRes) {
 	return genRes{ok: err == nil, id: id, err: errClass(err)}
 }
 
+// ---- single store fault ----------------------------------------------------------------------
+
+// faultArm makes exactly one operation (op on key) of a store double fail with an error.
+type faultArm struct {
+	mu      sync.Mutex
+	op, key string
+	armed   bool
+	hits    int
+}
+
+func (f *faultArm) arm(op, key string) {
+	f.mu.Lock()
+	f.op, f.key, f.armed = op, key, true
+	f.mu.Unlock()
+}
+
+func (f *faultArm) fn(c *doubles.Call) error {
+	f.mu.Lock()
+	defer f.mu.Unlock()
+	if f.armed && c.Op == f.op && c.Key == f.key {
+		f.armed = false
+		f.hits++
+		return doubles.ErrInjected
+	}
+	return nil
+}
+
+func (f *faultArm) spent() bool {
+	f.mu.Lock()
+	defer f.mu.Unlock()
+	return !f.armed && f.hits > 0
+}
+
 // ---- rig -----------------------------------------------------------------------------------
 
 type genRig struct {
 	s      *sched.Sched
 	mark   *doubles.Store // the ONE shared store that holds the markers
+	fault  *faultArm
 	kind   idKind
 	store  string // cas | nocas | hybrid
 	insts  map[string]genInst
@@ -155,6 +190,8 @@ func newGenRig(b *behaviour, procs []string, free bool) *genRig {
 		name = "shared"
 	}
 	r.mark = doubles.NewStore(name, r.s)
+	r.fault = &faultArm{}
+	r.mark.Fault = r.fault.fn
 	for _, p := range procs {
 		in := instOf(b.Lay, p)
 		if _, ok := r.insts[in]; ok {
@@ -324,6 +361,12 @@ func driveGen(env *fw.Env, b *behaviour) *fw.Trace {
 			switch st.R {
 			case "retry":
 				a.src.push(st.C)
+			case "fretry", "fault":
+				// the single store fault: this operation returns an error
+				if st.R == "fretry" {
+					a.src.push(st.C)
+				}
+				r.fault.arm(op, r.kind.key(cand[st.P]))
 			case "err":
 				if st.G != "" && st.G != st.P {
 					// the model's last attempt hands the mutex to a waiter; the real loop has ~98 attempts
@@ -334,13 +377,16 @@ func driveGen(env *fw.Env, b *behaviour) *fw.Trace {
 			}
 			if st.W {
 				r.s.Watchdog = 3 * time.Millisecond
-			} else if st.R == "retry" && !hasNX && b.Lay != "distinct" {
+			} else if (st.R == "retry" || st.R == "fretry") && !hasNX && b.Lay != "distinct" {
 				r.s.Watchdog = 50 * time.Millisecond // may lose the mutex race against a waiter
 			}
 			ns, _ := r.s.Step(a.name)
 			r.s.Watchdog = wd
+			if (st.R == "fretry" || st.R == "fault") && !r.fault.spent() {
+				return &fw.Trace{Status: fw.DriverError, Note: "the armed store fault was not consumed by " + op}
+			}
 			switch st.R {
-			case "ok", "":
+			case "ok", "", "fault":
 				if ns != sched.Done {
 					return div("expected the call to return, is %s", ns)
 				}
@@ -353,7 +399,7 @@ func driveGen(env *fw.Env, b *behaviour) *fw.Trace {
 				if !at(a, "Set", cand[st.P]) {
 					return div("expected to park at Set, is %s", ns)
 				}
-			case "retry":
+			case "retry", "fretry":
 				cand[st.P] = st.C
 				if st.W {
 					if ns != sched.Blocked {
